@@ -96,11 +96,22 @@ def run(rep):
     stt = m.struct('S', [('a', sc[('Float', 4)], None, 0)], 4)
     expected = []
     n = 0
+    samples = {k: list(v) for k, v in SAMPLES.items()}
+    if rep.tier == 'thorough':
+        # seeded additional values: exactly representable floats (multiples of 1/64), integers over the whole range of the type
+        import os, random
+        rnd = random.Random(int(os.environ.get('VERIF_SEED', '0') or 0) + 15)
+        rng = {'u32': (0, 2**32 - 1), 'i32': (-2**31, 2**31 - 1), 'u64': (0, 2**64 - 1), 'i64': (-2**63, 2**63 - 1)}
+        for ty_ in samples:
+            if ty_.startswith('f'):
+                samples[ty_] += [rnd.randint(-2**20, 2**20) / 64.0 for _ in range(60)]
+            elif ty_ in rng:
+                samples[ty_] += [rnd.randint(*rng[ty_]) for _ in range(60)] + [2**k_ for k_ in range(0, 31, 3)]
     for var in lit:
         rty = LIT_TY.get(var)
         if rty is None:
             continue
-        for val in SAMPLES[rty]:
+        for val in samples[rty]:
             n += 1
             name = f'K_{var}_{n}'
             payload = val if rty == 'bool' else K.Num(rty, float(val) if rty.startswith('f') else val)
